@@ -1365,5 +1365,56 @@ def C08(tier):
     return out
 
 
+# ====================================================================== sharding (C13)
+def C13(tier):
+    """Routing is the released function of the key alone (whatever was hashed before); a sharded cache
+    answers like an unsharded one on a small history; aggregates cover all shards."""
+    import itertools
+    import diskcache
+    from replays import released_hash
+    bad = None
+    cases = 0
+    keys = ['a', b'a', 1, 1.0, True, 0, 0.0, False, -1, 2 ** 32 - 1, 2 ** 32, -2 ** 63, 2 ** 64, (1, 2), (1.0, 2), (True, 2),
+            ('f', 1), ('f', 1.0), None, 'é', 2.5, frozenset([1]), frozenset([1.0])]
+    d = tempfile.mkdtemp()
+    try:
+        for shards in (1, 2, 3, 8, 13):
+            for order in (keys, list(reversed(keys))):
+                fan = diskcache.FanoutCache(d + '/f%d%d' % (shards, order is keys), shards=shards)
+                for k in order:
+                    cases += 1
+                    got = fan._hash(k) % fan._count
+                    exp = released_hash(k) % shards
+                    if got != exp:
+                        bad = bad or 'shards=%d: key %r routed to shard %d, released routing says %d (keys hashed before: %d)' % (
+                            shards, k, got, exp, order.index(k))
+                fan.close()
+        # observable equivalence with an unsharded cache on a small history + aggregate coverage
+        fan = diskcache.FanoutCache(d + '/eq', shards=3)
+        plain = diskcache.Cache(d + '/plain')
+        # numerically equal int/float keys are routed apart (recorded finding KF-C13-hash-int-float): one of each only
+        small = [k for k in keys if not isinstance(k, frozenset) and not (type(k) is float and k == int(k))]
+        for i, k in enumerate(small):
+            fan.set(k, i, tag='t' if i % 2 else None)
+            plain.set(k, i, tag='t' if i % 2 else None)
+        for k in small:
+            cases += 1
+            if fan.get(k) != plain.get(k) or (k in fan) != (k in plain):
+                bad = bad or 'FanoutCache.get(%r) = %r, Cache.get = %r' % (k, fan.get(k), plain.get(k))
+        if len(fan) != len(plain) or sorted(map(repr, fan)) != sorted(map(repr, plain)):
+            bad = bad or 'len/iteration differ: %d vs %d' % (len(fan), len(plain))
+        if fan.evict('t') != plain.evict('t') or len(fan) != len(plain):
+            bad = bad or 'evict differs'
+        if fan.clear() != plain.clear() or len(fan) != 0:
+            bad = bad or 'clear does not cover all shards'
+    except Exception as e:
+        import traceback
+        bad = bad or 'raised %r %s' % (e, traceback.format_exc()[-300:])
+    finally:
+        shutil.rmtree(d, ignore_errors=True)
+    return [result('C13.standin.routing_and_equivalence', bad is None,
+                   '23 keys (look-alike pairs) x shard counts {1,2,3,8,13} x 2 hashing orders against the released routing; small equivalence history', cases, bad)]
+
+
 if __name__ == '__main__':
     main()
